@@ -4,7 +4,7 @@ import pathspec
 from . import gen
 
 
-def sealed_world(rnd, nested_p=0.4, multi_gen_p=0.4, patterns_p=0.25):
+def sealed_world(rnd, nested_p=0.4, multi_gen_p=0.4, patterns_p=0.25, no_dirhash_p=0.0):
     """returns (tree dict, seal ops, fs sim, patterns) - a tree sealed by folder-mode creates (root last)"""
     fs = gen.FsSim()
     gen.gen_tree(rnd, fs, max_depth=rnd.choice([1, 2, 3]))
@@ -42,6 +42,12 @@ def sealed_world(rnd, nested_p=0.4, multi_gen_p=0.4, patterns_p=0.25):
     if rnd.random() < multi_gen_p:
         for _ in range(rnd.randint(1, 2)):
             ops.append({"op": "create", "at": "", "h": gen.fmt_subset(rnd, (1, 2)), "now": now()})
+    if no_dirhash_p and rnd.random() < no_dirhash_p:
+        # generations without directory hashes (-n): all of them, or a random part
+        every = rnd.random() < 0.5
+        for o in ops:
+            if every or rnd.random() < 0.5:
+                o["n"] = True
     return tree, ops, fs, pats
 
 
